@@ -203,15 +203,21 @@ var fixedTime = time.Date(2026, 1, 2, 3, 4, 5, 678000000, time.UTC)
 
 //go:noinline
 func logOne(e event) {
-	log.Info(context.Background(), tag, log.Int("g", e.g), log.Int("seq", e.seq), log.Int("len", len(e.fill)), log.String("fill", e.fill), log.Uint("crc", e.crc))
+	// nested containers first (the text layout hands them to an embedded JSON encoder), then the self-validating scalars
+	log.Info(context.Background(), tag, log.Ints("pre", []int{e.g, e.seq}), log.Object("obj", log.Int("g", e.g), log.Strings("s", []string{"x"})),
+		log.Int("g", e.g), log.Int("seq", e.seq), log.Int("len", len(e.fill)), log.String("fill", e.fill), log.Uint("crc", e.crc))
 }
 
 var lineRe = regexp.MustCompile(`\bg"?[=:](\d+)(?:\|\||,)"?seq"?[=:](\d+)(?:\|\||,)"?len"?[=:](\d+)(?:\|\||,)"?fill"?[=:]"?([a-z]*)"?(?:\|\||,)"?crc"?[=:](\d+)\}?$`)
+var nestedRe = regexp.MustCompile(`\bpre"?[=:]\[(\d+),(\d+)\](?:\|\||,)"?obj"?[=:]\{"g":(\d+),"s":\["x"\]\}(?:\|\||,)"?g"?[=:]`)
 
 func validLine(line string) error {
 	m := lineRe.FindStringSubmatch(line)
 	if m == nil {
 		return fmt.Errorf("line is torn or mixed (does not have the shape of one event): %q", clip(line))
+	}
+	if nm := nestedRe.FindStringSubmatch(line); nm == nil || nm[1] != m[1] || nm[2] != m[2] || nm[3] != m[1] {
+		return fmt.Errorf("the nested fields of the line are missing, damaged or belong to another event (g=%s seq=%s): %q", m[1], m[2], clip(line))
 	}
 	n, _ := strconv.Atoi(m[3])
 	crc, _ := strconv.ParseUint(m[5], 10, 32)
